@@ -180,6 +180,19 @@ Theorem filter_then_bind_owned_ranges : ∀ w p nodes o fl w1 l ns name node o2 
 Proof. exact filter_then_bind_owned_l. Qed.
 Print Assumptions filter_then_bind_owned_ranges.
 
+(** ... and, more generally, whenever at most ONE requested range list has no IP of the key yet ([missing_ranges]):
+    the reset in NodeSubnetsByIPRanges needs three such lists, overlapping needs two *)
+Theorem filter_then_bind_partial : ∀ w p nodes o fl w1 l ns name node o2 w2 r,
+  WInv w → w_pods w !! (ns, name) = Some p → pd_node p = [] →
+  (pd_ranges p = [] ∨ List.length (missing_ranges (w_ipam w) p) ≤ 1)%nat →
+  filter_section w p nodes o fl = (w1, FNodes l) → In node l →
+  w_lister w1 !! (ns, name) = Some p →
+  bind_section true true w1 ns name (pd_uid p) node o2 no_faults = (w2, r) →
+  (∃ ips, r = BOk ips) ∨ r = BStuck ∨
+  (r = BErr ∧ ∃ y ey, i_alloc (w_ipam w1) !! y = Some ey ∧ e_key ey = pod_key p ∧ e_uid ey ≠ [] ∧ e_uid ey ≠ pd_uid p).
+Proof. exact filter_then_bind_partial_l. Qed.
+Print Assumptions filter_then_bind_partial.
+
 (** the hypotheses are satisfiable: a fresh statefulset pod on the tables of the process start ([ipam_init] = the
     tables of [pstep (world0 false nodes) (PIpam (OConfigure conf false []))], two pools): filter offers the three
     nodes that have a free routable IP (not node4) and changes nothing; bind on node3 with the choice 10.101.0.2
